@@ -167,6 +167,15 @@ func genDur(r *rng) *Val {
 		return vDur(0)
 	case 1:
 		return vDur([]int64{1, -1, 999999999, 1000000000, 1000000001, -999999999, -1000000000, -1000000001}[r.intn(8)])
+	case 2:
+		// many whole seconds (beyond float32/float64 exactness) with a sub-second part next to the boundary
+		sec := []int64{1 << 24, 1<<24 + 1, 1 << 31, 1 << 33, 9007200, 1 << 40 / 1000, 9223372035}[r.intn(7)]
+		ns := []int64{999999999, 999999998, 999999050, 1, 500000000}[r.intn(5)]
+		d := sec*1000000000 + ns
+		if r.bool() {
+			d = -d
+		}
+		return vDur(d)
 	}
 	return vDur(v.I.Int64())
 }
